@@ -80,9 +80,9 @@ func NewWriterLevel(w io.Writer, level, wc int) (*Writer, error) {
 	go func() {
 		defer bg.wg.Done()
 		for qw := range bg.queue {
-			if !writeOK(bg, <-qw.flush) {
-				break
-			}
+			// Keep draining after a failure so that compressors are
+			// returned and Write, Wait and Close do not block.
+			writeOK(bg, <-qw.flush)
 		}
 	}()
 
@@ -91,9 +91,15 @@ func NewWriterLevel(w io.Writer, level, wc int) (*Writer, error) {
 
 func writeOK(bg *Writer, c *compressor) bool {
 	defer func() { bg.waiting <- c }()
+	defer bg.qwg.Done()
 
 	if c.err != nil {
 		bg.setErr(c.err)
+		return false
+	}
+	if bg.Error() != nil {
+		// An earlier block failed; the stream ends there.
+		c.buf.Reset()
 		return false
 	}
 	if c.buf.Len() == 0 {
@@ -102,9 +108,9 @@ func writeOK(bg *Writer, c *compressor) bool {
 
 	verifPoint("writer.emit", int64(c.buf.Len()), 0)
 	_, err := io.Copy(bg.w, &c.buf)
-	bg.qwg.Done()
 	if err != nil {
 		bg.setErr(err)
+		c.buf.Reset()
 		return false
 	}
 	c.next = 0
